@@ -814,6 +814,8 @@ def MatchExpr(e, m, tks, result = None):
     elif isinstance(e, ExprOp):
         if not isinstance(m, ExprOp):
             return False
+        if e.op != m.op or len(e.args) != len(m.args):
+            return False
         for a1, a2 in zip(e.args, m.args):
             r = MatchExpr(a1, a2, tks, result)
             if r == False:
@@ -824,7 +826,16 @@ def MatchExpr(e, m, tks, result = None):
             return False
         if e.size != m.size:
             return False
-        return MatchExpr(e.arg, m.arg, tks, result)
+        if isinstance(e.segm, Expr) or isinstance(m.segm, Expr):
+            if not (isinstance(e.segm, Expr) and isinstance(m.segm, Expr)):
+                return False
+            if MatchExpr(e.segm, m.segm, tks, result) is False:
+                return False
+        r = MatchExpr(e.arg, m.arg, tks, result)
+        if r is True and result:
+            # literal address: report the bindings made by the segment
+            return result
+        return r
     elif isinstance(e, ExprSlice):
         if not isinstance(m, ExprSlice):
             return False
@@ -843,6 +854,8 @@ def MatchExpr(e, m, tks, result = None):
         return result
     elif isinstance(e, ExprCompose):
         if not isinstance(m, ExprCompose):
+            return False
+        if len(e.args) != len(m.args):
             return False
         for a1, a2 in zip(e.args, m.args):
             if a1[1] != a2[1] or a1[2] != a2[2]:
